@@ -585,6 +585,34 @@ def _marker_relation(test, outcome, slot_ok):
     return None
 
 
+def _is_bool_store(p):
+    """True / False when the path decided `self.data_type is bool` (or ==), None when it did not ask"""
+    for e in p.trace:
+        if e.k != "decision":
+            continue
+        tt, pol = e.test, e.outcome
+        while tt[0] == "not":
+            tt, pol = tt[1], not pol
+        if tt[0] == "cmp" and tt[1] in ("Is", "Eq", "IsNot", "NotEq"):
+            a, b = tt[2], tt[3]
+            if {a, b} == {("attr", SELF, "data_type"), ("builtin", "bool")}:
+                return pol if tt[1] in ("Is", "Eq") else not pol
+    return None
+
+
+def _abstract_index(t, is_index):
+    """the term with every slot index replaced by a placeholder and call ids dropped, so that two readers can be compared"""
+    if not isinstance(t, tuple):
+        return t
+    if is_index(t):
+        return ("<i>",)
+    if t[0] == "sub" and len(t) >= 3:
+        return ("sub", _abstract_index(t[1], is_index), _abstract_index(t[2], is_index))
+    if t[0] == "call":
+        return ("call", t[1], tuple(_abstract_index(x, is_index) for x in t[2]))
+    return tuple(_abstract_index(x, is_index) for x in t)
+
+
 def rule_ms7(ctx: Ctx) -> RuleResult:
     """is_set / is_cleared answer from the marker of the method's own slot; iterate enumerates exactly the slots that are not
     CLEARED, each with its own key, value and 'is set' flag."""
@@ -607,6 +635,18 @@ def rule_ms7(ctx: Ctx) -> RuleResult:
             r.ob(ok, lambda name=name, code=code, v=v, p=p: _f(
                 "MS-7", name, mm, fn, "%s(key) must be True exactly when the marker of slot key[0] is %s; this path [%s] returns %s" % (
                     name, code, "; ".join(e.brief() for e in p.trace if e.k == "decision"), show(v) if v is not None else None), trace_of(p)))
+    # how get reads a SET slot, per kind of store:  {store is bool: value term with the slot index abstracted}
+    gm, gfn = _method(ctx, "get")
+    get_shapes = {}
+    for p in ctx.fn_paths(gm, gfn):
+        r.paths += 1
+        if p.outcome != "return" or p.value is None or not any(x[0] == "sub" and _arr(x[1]) == "values" for x in subterms(p.value)):
+            continue
+        isb = _is_bool_store(p)
+        for b in ((True, False) if isb is None else (isb,)):
+            get_shapes[b] = _abstract_index(p.value, _key0)
+    if set(get_shapes) != {True, False}:
+        raise AnalysisError("MemoryStore.get: could not tell what a SET slot reads as for bool and for non-bool stores")
     mm, fn = _method(ctx, "iterate")
     r.instances += 1
     n_yield = 0
@@ -639,9 +679,22 @@ def rule_ms7(ctx: Ctx) -> RuleResult:
         if ok:
             v = ys[0].value
             ok = v[0] == "tuple" and len(v) == 4 and v[1][0] == "sub" and _arr(v[1][1]) == "keys" and v[1][2] == I \
-                and v[2][0] == "sub" and _arr(v[2][1]) == "values" and v[2][2] == I and _marker_relation(v[3], True, lambda x: x == I) == ("SET", True)
+                and any(x[0] == "sub" and _arr(x[1]) == "values" and x[2] == I for x in subterms(v[2])) and _marker_relation(v[3], True, lambda x: x == I) == ("SET", True)
         r.ob(ok, lambda: _f("MS-7", "iterate{yield}", mm, (ys[0].node if ys else it.node),
-                            "for a slot that is not CLEARED iterate must yield (keys[i], values[i], state[i] == SET) once; it yields %s" % [show(y.value) for y in ys], trace_of(p)))
+                            "for a slot that is not CLEARED iterate must yield (keys[i], <values[i] as get reads it>, state[i] == SET) once; it yields %s" % [show(y.value) for y in ys], trace_of(p)))
+        if ok:
+            # the two readers of the value array agree: what iterate yields for slot i is what get returns for a key of index i, for a
+            # bool store and for any other store (get converts the 0 / 1 of the byte array back to a bool)
+            isb = _is_bool_store(p)
+            for want_b, shape in sorted(get_shapes.items(), key=str):
+                if isb is not None and isb != want_b:
+                    continue
+                mine = _abstract_index(v[2], lambda x: x == I)
+                r.ob(mine == shape, lambda want_b=want_b, shape=shape, mine=mine: _f(
+                    "MS-7", "iterate{value-as-get}", mm, ys[0].node,
+                    "for a %s store get(key) returns %s but iterate yields %s for the same slot: the value does not read back with the declared type "
+                    "through iterate (a flag written as True reads back as the int 1, and fails `is True`)" % (
+                        "bool" if want_b else "non-bool", show(shape), show(mine)), trace_of(p)))
     r.ob(n_yield >= 1, lambda: _f("MS-7", "iterate{yield}", mm, fn, "iterate has no path that yields a live slot"))
     r.require_instances(3)
     return r
